@@ -65,13 +65,13 @@ type World struct {
 	// PostAction, when set, runs on the driver after every executed action.
 	PostAction func(idx int)
 	// OnStart, when set, runs after every successful (re)start of an instance.
-	OnStart   func(i int)
-	CurAction int
+	OnStart    func(i int)
+	CurAction  int
 	mu         sync.Mutex
 	asyncGoids map[uint64]bool
 	Scratch    map[string]any // per-run state of property-specific handlers
-	holdMu   sync.Mutex
-	holdHits map[string]int
+	holdMu     sync.Mutex
+	holdHits   map[string]int
 }
 
 // deterministic reader for uuid.SetRand.
@@ -132,6 +132,14 @@ func NewWorld(p *Plan) *World {
 		w.logW = os.Stderr
 	}
 	simfs.Reset()
+	simfs.Latency = func(kind, path string) time.Duration {
+		// the temp-file suffix is random per snapshot: key the duration by the file kind
+		base := "nflog"
+		if strings.Contains(path, "/silences") {
+			base = "silences"
+		}
+		return 20*time.Microsecond + time.Duration(Hash64(p.Seed, kind, base)%9973)
+	}
 	simrand.Reset(p.Seed ^ 0x5151)
 	uuid.SetRand(&detReader{s: p.Seed ^ 0xabcdef})
 	w.wh = newWebhookWorld(w)
@@ -159,6 +167,7 @@ func (w *World) Close() {
 	w.wh.close()
 	verifhook.GetFn = nil
 	verifhook.YieldFn = nil
+	simfs.Latency = nil
 	uuid.SetRand(nil)
 	os.RemoveAll(w.dir)
 }
@@ -264,7 +273,7 @@ func (w *World) logger(name string) *slog.Logger {
 
 type vtime struct{ w *World }
 
-func (v vtime) String() string { return v.w.H.now().String() }
+func (v vtime) String() string       { return v.w.H.now().String() }
 func (v vtime) LogValue() slog.Value { return slog.StringValue(v.w.H.now().String()) }
 
 func orDur(d, def Dur) Dur {
